@@ -23,6 +23,7 @@ def run(ctx):
         for b in E.bytes_cases(rng, gt, k, r):
             reqs.append(E.Req(gt, "de", b))
     E.run_requests(ctx, sess, drv, "roundtrip", reqs, tally, cross_target=True)
+    E.run_refinement_ties(ctx)
     ctx.sample({"type": reqs[-1].gt.tstr[:200], "request": reqs[-1].target_line()[:200]})
 
 
